@@ -182,7 +182,21 @@ func WriteCounterFile(t *simrt.Tape, s *simrt.Sim, dir string, begin time.Time, 
 				continue
 			}
 			seen[name] = true
-			pairs = append(pairs, refformat.Pair{Name: name, Value: uint64(1 + t.Draw(1000))})
+			// any value a report can carry: mostly small, sometimes zero (a slot
+			// allocated and never counted into), rarely huge. A week's sum stays
+			// below 2^63: the report's fields are signed 64-bit, so no
+			// implementation can make "equals the sum" true beyond that (the
+			// pinned tree reports a counter holding 2^63 as -2^63; see DESIGN 12).
+			val := uint64(1 + t.Draw(1000))
+			switch t.Biased(40, 33, 40) {
+			case 1, 2, 3, 4, 5:
+				val = 0
+			case 6:
+				val = 1 << 50 // (the oracles read report numbers as float64: keep sums exact)
+			case 7:
+				val = 1<<50 - 1
+			}
+			pairs = append(pairs, refformat.Pair{Name: name, Value: val})
 		}
 	}
 	data, err := refformat.Encode(meta, pairs, t.Draw(2))
